@@ -237,7 +237,7 @@ impl TreeSys for Fam {
 
 fn main() {
     let run = Run::from_args("C10");
-    let fam = Fam { alpha: vec![None, Some(0.0), Some(1.0), Some(2.0)], max_len: run.pick(4, 6) };
+    let fam = Fam { alpha: vec![None, Some(0.0), Some(1.0), Some(2.0)], max_len: run.pick(4, 7) };
     if let Some(path) = &run.replay {
         let stored = load_replay(path).unwrap_or_else(|e| {
             eprintln!("MACHINERY-ERROR: {e}");
